@@ -16,7 +16,7 @@ RULE = (
     "fmtfuncs in generated order, copy_with_new_atts), then optional new_with_atts_removed / copy_with_new_str / shared_atts; plus "
     "the complete 23-name fmtfuncs table, all 5184 truthy attribute sets x 4 spellings (thorough: x all spellings), and a catalogue "
     "of invalid specifications. Oracle: per-character attribute overwrite model on cells; all spellings give identical cells and "
-    "str(); removal deletes exactly the named; invalid -> ValueError only; shared_atts subset of what every character has. "
+    "str(); removal deletes exactly the named; invalid -> ValueError only; shared_atts subset of what every character has, read a second time after the caller edited the mapping it was handed. "
     "Non-trivial: >=2 layers touching the same attribute kind, a multi-run base, or a False override."
     ' Bases are observed (all caches filled) before each layer and the terminal string of every result is judged by the SGR interpreter as well as the run attributes.'
     ' The invalid catalogue includes mis-typed names and values (tuples, lists, dicts, sets, bytes, floats, booleans); bases with runs made only of zero-width characters; replacement text carrying escape sequences for copy_with_new_str.'
